@@ -153,12 +153,19 @@ Unslip(s, acc) == IF s = <<>> THEN [st |-> "eof", frame |-> acc]
                             ELSE IF s[2] = 221 THEN Unslip(Drop(s, 2), Append(acc, 219))
                             ELSE [st |-> "ilseq", frame |-> acc]
                        ELSE Unslip(Tail(s), Append(acc, s[1]))
-RECURSIVE Unvar(_, _, _, _)
-Unvar(s, i, acc, mul) == IF i >= Len(s) \/ i >= 4 THEN [ok |-> FALSE, len |-> 0, used |-> i]
-                         ELSE IF s[i + 1] < 128 THEN [ok |-> TRUE, len |-> acc + s[i + 1] * mul, used |-> i + 1]
-                         ELSE Unvar(s, i + 1, acc + (s[i + 1] % 128) * mul, mul * 128)
+(* the length prefix is a varint of up to ten octets; it need not be minimal (0x80 0x80 0x80 0x80 0x00 is zero).  Groups beyond
+   the fourth only matter when they are non-zero: the announced length is then 2^28 or more, which no stream of the model
+   satisfies - the unit ends inside the frame, like any other announced length the stream cannot deliver (R2: no wide arithmetic) *)
+RECURSIVE Unvar(_, _, _, _, _)
+Unvar(s, i, acc, mul, big) ==
+    IF i >= Len(s) \/ i >= 10 THEN [ok |-> FALSE, len |-> 0, used |-> i]
+    ELSE LET g == s[i + 1] % 128
+             acc2 == IF i < 4 THEN acc + g * mul ELSE acc
+             big2 == big \/ (i >= 4 /\ g # 0)
+         IN IF s[i + 1] < 128 THEN [ok |-> ~big2, len |-> acc2, used |-> i + 1]
+            ELSE Unvar(s, i + 1, acc2, IF i < 3 THEN mul * 128 ELSE mul, big2)
 Unframe(tr, w) == IF tr = 0 THEN Unslip(w, <<>>)
-                  ELSE LET p == Unvar(w, 0, 0, 1)
+                  ELSE LET p == Unvar(w, 0, 0, 1, FALSE)
                        IN IF ~p.ok \/ Len(w) - p.used < p.len THEN [st |-> "eof", frame |-> <<>>]
                           ELSE [st |-> "ok", frame |-> SubSeq(w, p.used + 1, p.used + p.len)]
 
